@@ -131,7 +131,7 @@ pub fn run(ctx: &Ctx) {
     let n = ctx.tier.pick(10_000, 200_000);
     ctx.run_prop(
         "h2-dynamic-table-isolation",
-        "2..6 interleaved HTTP/2 connections whose request header blocks all insert literal fields into the HPACK dynamic table and reference them again (index >= 62), a third of them starting with `dynamic table size update 0`; oracle as above (HTTP and unified analyzers); non-trivial: >= 2 connections",
+        "2..6 interleaved HTTP/2 connections whose request header blocks all insert literal fields into the HPACK dynamic table and reference them again (index >= 62), a third of them starting with `dynamic table size update 0`, and half of them adversarial (the block changes the decoder state and then fails to decode: nonexistent index); oracle as above (HTTP and unified analyzers); non-trivial: >= 2 connections",
         n,
         || {
             use proptest::prelude::*;
@@ -140,7 +140,7 @@ pub fn run(ctx: &Ctx) {
                     let (rq, rs) = match &c.script {
                         Script::Http2 { req, resp } => (req.clone(), resp.clone()),
                         _ => {
-                            let e = crate::props::c09::Exchange::H2 { req: crate::props::c16::H2Case { request: true, block: crate::gen::h2::Block { size_updates: vec![], fields: vec![] }, framing: crate::gen::h2::HeadersFraming { stream: 1, end_stream: true, pad: None, priority: None, splits: vec![], reserved_bit: false }, pre: vec![], body: None }, resp: crate::props::c16::H2Case { request: false, block: crate::gen::h2::Block { size_updates: vec![], fields: vec![] }, framing: crate::gen::h2::HeadersFraming { stream: 1, end_stream: true, pad: None, priority: None, splits: vec![], reserved_bit: false }, pre: vec![crate::props::c16::PreFrame::Settings(vec![(3, 100)])], body: None } };
+                            let e = crate::props::c09::Exchange::H2 { req: crate::props::c16::H2Case { request: true, block: crate::gen::h2::Block { size_updates: vec![], fields: vec![] }, framing: crate::gen::h2::HeadersFraming { stream: 1, end_stream: true, pad: None, priority: None, splits: vec![], reserved_bit: false }, pre: vec![], body: None , hostile_tail: vec![] }, resp: crate::props::c16::H2Case { request: false, block: crate::gen::h2::Block { size_updates: vec![], fields: vec![] }, framing: crate::gen::h2::HeadersFraming { stream: 1, end_stream: true, pad: None, priority: None, splits: vec![], reserved_bit: false }, pre: vec![crate::props::c16::PreFrame::Settings(vec![(3, 100)])], body: None , hostile_tail: vec![] } };
                             match e {
                                 crate::props::c09::Exchange::H2 { req, resp } => (req, resp),
                                 _ => unreachable!(),
@@ -160,6 +160,14 @@ pub fn run(ctx: &Ctx) {
                     rq.block.fields.push(f("x-conn", format!("value-{i}-{tag}"), PreferIndexed)); // dynamic-table reference
                     if tag % 3 == 0 {
                         rq.block.size_updates = vec![0];
+                    }
+                    // adversarial connection: the block first shrinks the dynamic table to 0 / inserts entries and then
+                    // references an index that does not exist, so that decoding fails half-way through
+                    if tag % 4 == 1 {
+                        rq.block.size_updates = vec![0];
+                        rq.hostile_tail = vec![0xfe];
+                    } else if tag % 4 == 2 {
+                        rq.hostile_tail = vec![0xff, 0xff, 0x03];
                     }
                     if !rs.block.fields.iter().any(|x| x.name == ":status") {
                         rs.block.fields = vec![f(":status", "200".into(), PreferIndexed), f("server", format!("srv{i}"), LiteralIndexed)];
